@@ -66,13 +66,25 @@ for job in spec["jobs"]:
     prefix = job[3] if len(job) > 3 else spec["dfile_prefix"]
     try:
         kw = {}
-        if mode not in ("ts", "dup", "exc", "uset"):
+        if mode not in ("ts", "dup", "exc", "uset", "badpath", "dictconst"):
             from py_compile import PycInvalidationMode as M
             kw["invalidation_mode"] = M.CHECKED_HASH if mode == "ch" else M.UNCHECKED_HASH
         elif sys.version_info >= (3, 7):
             from py_compile import PycInvalidationMode as M
             kw["invalidation_mode"] = M.TIMESTAMP
-        if mode == "uset":
+        if mode == "badpath":
+            # the source lives under a path that is not valid UTF-8: the compiler sees it with a surrogate escape,
+            # marshal stores co_filename with "surrogatepass" (as an interned string from 3.13 on)
+            py_compile.compile(src, cfile=dst, dfile=u"src/caf\udce9_" + os.path.basename(src), doraise=True)
+        elif mode == "dictconst":
+            # a dict among the constants (a bytecode writer can put one there), with None as key and as value
+            import marshal, struct, importlib.util
+            with open(src, "rb") as f:
+                co = compile(f.read(), prefix + os.path.basename(src), "exec", dont_inherit=True)
+            co2 = co.replace(co_consts=co.co_consts + ({"a": 1, "b": None, None: 2, "t": (None, 0)}, {}))
+            with open(dst, "wb") as f:
+                f.write(importlib.util.MAGIC_NUMBER + struct.pack("<III", 0, 1700000000, 0) + marshal.dumps(co2))
+        elif mode == "uset":
             # Python 2 only: a frozenset / dict of unicode strings among the constants (the 2.x compiler never puts
             # one there, a bytecode writer can): their order in a listing must not depend on memory addresses
             import marshal, struct, types, imp
@@ -214,6 +226,10 @@ def produce_corpus(seed, n_xdis, n_stdlib, only_tags=None, outdir=None, workers=
                                                           "s07c_async35.py", "04_raise.py"):
                 stem = "%03d_%s" % (k, os.path.basename(src)[:-3])
                 jobs.append([src, os.path.join(tdir, "%s.exc.pyc" % stem), "exc"])
+            if vt >= (3, 8) and k % 7 == 3:
+                stem = "%03d_%s" % (k, os.path.basename(src)[:-3])
+                jobs.append([src, os.path.join(tdir, "%s.badpath.pyc" % stem), "badpath"])
+                jobs.append([src, os.path.join(tdir, "%s.dictconst.pyc" % stem), "dictconst"])
             if vt < (3, 0) and k % 6 == 0:
                 stem = "%03d_%s" % (k, os.path.basename(src)[:-3])
                 jobs.append([src, os.path.join(tdir, "%s.uset.pyc" % stem), "uset"])
